@@ -23,7 +23,7 @@ def now():
 class Engine:
     """One engine process with a recorded, timestamped dialogue."""
 
-    def __init__(self, binary, env_extra=None, args=None):
+    def __init__(self, binary, env_extra=None, args=None, pin_cpu=None):
         env = dict(os.environ)
         env.pop("RUST_BACKTRACE", None)
         if env_extra:
@@ -32,6 +32,13 @@ class Engine:
         self.proc = subprocess.Popen([binary] + (args or []), stdin=subprocess.PIPE, stdout=subprocess.PIPE,
                                      stderr=subprocess.PIPE, env=env, bufsize=0, cwd=os.path.join(vc.BUILD, "tmp"))
         self.pid = self.proc.pid
+        if pin_cpu is not None:
+            # schedule diversity: both engine threads share one CPU, so that every preemption point between
+            # their critical sections becomes a likely context switch
+            try:
+                os.sched_setaffinity(self.pid, {pin_cpu})
+            except OSError:
+                pass
         self.events = []  # (t, kind, text) kind in send|out|err|exit
         self.out_lines = []  # (t, text)
         self.err_lines = []
@@ -388,15 +395,17 @@ def trace_classes(err_lines):
     return classes, tuple(pts)
 
 
-def run_history(binary, steps, delays, start_legal, ready_timeout=8.0, trace=True):
+def run_history(binary, steps, delays, start_legal, ready_timeout=8.0, trace=True, pin_cpu=None):
     """Execute a history; returns dict(verdict=held|violated|inconclusive, signature, what, detail, classes)."""
     env = {}
     if delays:
         env["VERIF_UCI_DELAYS"] = ",".join(f"{k}={v}" for k, v in delays.items())
     if trace:
         env["VERIF_UCI_TRACE"] = "1"
-    e = Engine(binary, env)
+    e = Engine(binary, env, pin_cpu=pin_cpu)
     classes = set()
+    if pin_cpu is not None:
+        classes.add("engine_pinned_to_one_cpu")
     res = {"verdict": "held", "classes": classes}
     legal_now = start_legal  # legal moves of the position the next go will search
     pending = []  # outstanding go: list of dict(legal=..., out_index=...)
@@ -614,6 +623,17 @@ def c05_stage(out, tier, seed):
         steps = gen_history(rng, positions, rng.choice([6, 10, 16, 24, 30]))
         d = DELAY_CONFIGS[(i // 2) % len(DELAY_CONFIGS)] if (i % 2 == 0) else {}
         jobs.append((bins[i % len(bins)], steps, d))
+    # rapid go-infinite/stop cycles (the stop always finds a live search), half of them with the engine
+    # pinned to one CPU
+    for j in range(24 if not thorough else 200):
+        steps = []
+        for _ in range(12):
+            steps.append({"cmd": "go infinite", "kind": "go", "gap": 0.0, "infinite": True})
+            steps.append({"cmd": "stop", "kind": "stop", "gap": rng.choice([0.0005, 0.002, 0.005])})
+            steps.append({"kind": "await_bestmove"})
+            steps.append({"cmd": "isready", "kind": "isready", "gap": 0.0})
+        steps.append({"cmd": "quit", "kind": "quit", "gap": 0.0})
+        jobs.append((bins[j % len(bins)], steps, {}))
 
     lock = threading.Lock()
     stats = {"histories": 0, "commands": 0, "classes": {}, "delay_configs": {}}
@@ -624,7 +644,9 @@ def c05_stage(out, tier, seed):
         (bname, binary), steps, delays = job
         if out.violations_total >= 6:
             return None  # enough witnesses: do not spend minutes on the slow paths of a broken tree
-        r = run_history(binary, steps, delays, start_legal)
+        idx = job_index[id(steps)]
+        pin = (idx % 16) if idx % 3 == 0 else None
+        r = run_history(binary, steps, delays, start_legal, pin_cpu=pin)
         with lock:
             stats["histories"] += 1
             stats["commands"] += len(steps)
@@ -642,6 +664,7 @@ def c05_stage(out, tier, seed):
                 out.add_inconclusive({"stage": f"uci-{bname}", "what": r["what"], "commands": cmds_of(steps)})
         return r
 
+    job_index = {id(j[1]): i for i, j in enumerate(jobs)}
     with ThreadPoolExecutor(max_workers=12) as ex:
         list(ex.map(work, jobs))
     out.evaluations += stats["histories"]
@@ -672,8 +695,8 @@ def replay(pid, rec, path):
         vc.build_harness("checked")
         start_legal = None
         worst = None
-        for _ in range(3):
-            res = run_history(binary, r["steps"], r["delays"], start_legal)
+        for attempt in range(4):
+            res = run_history(binary, r["steps"], r["delays"], start_legal, pin_cpu=(attempt if attempt % 2 else None))
             if res["verdict"] == "violated":
                 print(f"REPRODUCED property={pid} {res['signature']}: {res['what'][:300]}")
                 print(f"VIOLATION property={pid} replay={path}")
